@@ -54,6 +54,11 @@ Proof.
   apply Z.mod_add. lia.
 Qed.
 
+Lemma int8_of_int32 z : int8_of (int32_of z) = int8_of z.
+Proof.
+  unfold int8_of. f_equal. rewrite Z.add_mod, int32_of_mod256, <- Z.add_mod by lia. reflexivity.
+Qed.
+
 Definition has_data (v : version) : Prop :=
   match v with V3R2Lockup | HLV1R1 | HLV1R2 | HLV2 | HLV2R1 => False | _ => True end.
 
@@ -319,6 +324,42 @@ Proof.
   - intros j tj aj Hj Hnj. pose proof (Hm j i tj aj t (Some s) Hj Hnj Hn). lia.
 Qed.
 
+(* the loop is over at the first reading at or past the deadline: later answers
+   cannot change the result *)
+Lemma confirm_stops wait sent h : forall i t a,
+  nth_error h i = Some (t, a) -> (wait <= t)%Z -> confirm wait sent h = confirm wait sent (firstn i h).
+Proof.
+  induction h as [|[t0 a0] rest IH]; intros i t a Hn Ht; [destruct i; discriminate|].
+  destruct i as [|i].
+  - cbn in Hn. injection Hn as -> ->. cbn [firstn confirm].
+    replace (t <? wait)%Z with false by (symmetry; apply Z.ltb_ge; lia). reflexivity.
+  - cbn [nth_error] in Hn. cbn [firstn confirm]. rewrite (IH i t a Hn Ht). reflexivity.
+Qed.
+
+(* logical clock in ticks: every iteration sleeps at least [step] (= wait/10 in
+   RawSendV2), so the reading before poll i is at least i*step.  Then only the
+   first n polls with n*step >= wait can matter: the send returns after at most
+   n polls (10 when the deadline is a multiple of 10 clock units). *)
+Definition ticks (step : Z) (h : list poll) : Prop :=
+  forall i t a, nth_error h i = Some (t, a) -> (Z.of_nat i * step <= t)%Z.
+
+Theorem confirm_poll_bound wait sent h step n :
+  ticks step h -> (wait <= Z.of_nat n * step)%Z ->
+  confirm wait sent h = confirm wait sent (firstn n h).
+Proof.
+  intros Hk Hn. destruct (nth_error h n) as [[t a]|] eqn:E.
+  - apply (confirm_stops wait sent h n t a E). specialize (Hk n t a E). lia.
+  - apply nth_error_None in E. rewrite firstn_all2 by exact E. reflexivity.
+Qed.
+
+Corollary confirm_ten_polls wait sent h :
+  ticks (wait / 10) h -> (wait mod 10 = 0)%Z ->
+  confirm wait sent h = confirm wait sent (firstn 10 h).
+Proof.
+  intros Hk Hm. apply (confirm_poll_bound wait sent h (wait / 10) 10 Hk).
+  pose proof (Z.div_mod wait 10 ltac:(lia)). change (Z.of_nat 10) with 10%Z. lia.
+Qed.
+
 Section Conf.
 Variable code : version -> cell.
 Variable chash : cell -> res bytes.
@@ -365,7 +406,7 @@ Theorem send_v2_spec w sk a ms valid rnd wait send_err hist e r :
     raw_send_msg SK chash sign w sk wc (bytes_to_bits h) seqno valid ms init rnd = Ok (hh, e) /\
     create_body SK chash sign w sk ms seqno valid op_signed_external rnd = Ok body /\
     (init_ok chash init ->
-     parse_ext chash e = Ok (mkext (Z.to_N (w_wc w mod 256)) (bytes_to_bits h) init body)) /\
+     parse_ext chash e = Ok (mkext (ext_in_std (w_wc w) (bytes_to_bits h)) init body)) /\
     r = (if send_err then Err EChain
          else if (wait =? 0)%Z then Ok hh
          else match w_ver w with
@@ -388,13 +429,13 @@ Proof.
     exists seqno, init, wc, h, hh.
     assert (Hb : exists body, create_body SK chash sign w sk ms seqno valid op_signed_external rnd = Ok body /\
                   (init_ok chash init -> parse_ext chash e' =
-                     Ok (mkext (Z.to_N (w_wc w mod 256)) (bytes_to_bits h) init body))).
+                     Ok (mkext (ext_in_std (w_wc w) (bytes_to_bits h)) init body))).
     { unfold raw_send_msg in Er. destruct (max_messages (w_ver w) <? length ms)%nat; [discriminate|].
       apply bind_ok in Er. destruct Er as (body & Hb & Er). exists body. split; [exact Hb|]. intros Hi.
       apply bind_ok in Er. destruct Er as (e2 & He & Er). apply bind_ok in Er. destruct Er as (h2 & Hh2 & Er).
       injection Er as <- <-.
       rewrite (parse_ext_msg chash wc (bytes_to_bits h) init body e2 h2 Hl Hi He Hh2).
-      rewrite Ewc, int32_of_mod256.
+      rewrite Ewc. unfold ext_in_std. rewrite int8_of_int32.
       destruct (create_body_shape SK chash sign _ _ _ _ _ _ _ _ Hb) as (u & hu & _ & _ & _ & -> & _).
       destruct (sig_appended (w_ver w)); reflexivity. }
     destruct Hb as (body & Hb & Hp). exists body. auto 10.
